@@ -248,6 +248,109 @@ def well_conditioned(filters, pts, bkind="cascade"):
     return True
 
 
+def tree_eval(node, w):
+    """exact response and a-priori float error bound of a nested bank at w:
+    ("val", H, err) | ("nan",) | ("bad",) | ("none",)  (none: exception, nothing numeric)"""
+    key = "cascade" if "cascade" in node else ("parallel" if "parallel" in node else None)
+    if key is None:
+        b, a = filt_terms(node)
+        if all(c == (0, 0) for _, c in a):
+            return ("none",)
+        r = abs_bound(b, a, w)
+        if r is None:
+            exact = node.get("ctype", "int") in ("int", "dyadic", "gauss")
+            return ("nan",) if (w == (F(1), F(0)) and exact) else ("bad",)
+        return ("val", r[0], r[1])
+    rs = [tree_eval(m, w) for m in node[key]]
+    if not rs or any(r[0] == "none" for r in rs):
+        return ("none",)
+    if any(r[0] == "bad" for r in rs):
+        return ("bad",)
+    if any(r[0] == "nan" for r in rs):
+        return ("nan",)
+    if key == "cascade":
+        tot = (F(1), F(0))
+        for r in rs:
+            tot = gmul(tot, r[1])
+        err = 0.0
+        for i, r in enumerate(rs):
+            t = r[2]
+            for j, r2 in enumerate(rs):
+                if j != i:
+                    t *= gabs(r2[1]) + r2[2]
+            err += t
+        err += 1e-15 * len(rs) * gabs(tot)
+    else:
+        tot = (F(0), F(0))
+        for r in rs:
+            tot = gadd(tot, r[1])
+        err = sum(r[2] for r in rs) + 1e-15 * sum(gabs(r[1]) for r in rs)
+    return ("val", tot, err)
+
+
+def tree_ok(tree, pts):
+    for w in pts:
+        r = tree_eval(tree, w)
+        if r[0] == "bad":
+            return False
+        if r[0] == "val" and r[2] > BOUND * (1 + gabs(r[1])):
+            return False
+    return True
+
+
+def gen_tree_node(rng, maxlen, depth):
+    if depth == 0 or rng.random() < 0.35:
+        f = gen_filter(rng, min(maxlen, 5))
+        if f["a"] == [1] and rng.random() < 0.3:
+            f["raw"] = True
+        return f
+    key = rng.choice(["cascade", "parallel"])
+    n = rng.choice([0, 1, 2, 2, 3]) if depth == 1 and rng.random() < 0.1 else rng.choice([1, 2, 2, 3])
+    node = {key: [gen_tree_node(rng, maxlen, depth - 1) for _ in range(n)],
+            "form": rng.choice(["star", "list"])}
+    ms = node[key]
+    if node["form"] == "star" and len(ms) == 1 and ms[0].get("raw"):
+        node["form"] = "list"       # Cascade([1, 2]) would mean the two gains 1 and 2
+    return node
+
+
+def gen_tree(rng, maxlen, big):
+    for _ in range(200):
+        key = rng.choice(["cascade", "parallel"])
+        n = rng.choice([1, 2, 2, 3])
+        tree = {key: [gen_tree_node(rng, maxlen, 2 if big else 1) for _ in range(n)],
+                "form": rng.choice(["star", "list"])}
+        ms = tree[key]
+        if tree["form"] == "star" and len(ms) == 1 and ms[0].get("raw"):
+            tree["form"] = "list"
+        kind = rng.choice(["scalar", "list", "tuple", "gen", "stream"])
+        pts = pick_points(rng, kind, big)
+        if not tree_ok(tree, pts):
+            continue
+        return {"entry": "tree", "tree": tree, "kind": kind, "pts": [genc(w) for w in pts],
+                "wrap": rng.random() < 0.5}
+    return None
+
+
+def build_tree(node):
+    from audiolazy import CascadeFilter, ParallelFilter
+    key = "cascade" if "cascade" in node else ("parallel" if "parallel" in node else None)
+    if key is None:
+        if node.get("raw"):
+            return [py_coeff(x, node.get("ctype", "int")) for x in node["b"]]
+        return mk_filter(node)
+    members = [build_tree(m) for m in node[key]]
+    cls = CascadeFilter if key == "cascade" else ParallelFilter
+    return cls(members) if node.get("form") == "list" else cls(*members)
+
+
+def tree_depth(node):
+    key = "cascade" if "cascade" in node else ("parallel" if "parallel" in node else None)
+    if key is None:
+        return 0
+    return 1 + max([tree_depth(m) for m in node[key]] + [0])
+
+
 def pick_points(rng, kind, big):
     if kind == "scalar":
         return [rand_point(rng, big)]
@@ -414,7 +517,8 @@ def generate(rng, tier, scale=1):
     if scale == 1:
         cases += malformed(rng)
         cases += grid(2 if quick else 3)
-    gens = [(gen_freq, 34), (gen_freqd, 10), (gen_bank, 18), (gen_dft, 14), (gen_fir, 12), (gen_expo, 12)]
+    gens = [(gen_freq, 32), (gen_freqd, 10), (gen_bank, 12), (gen_tree, 10), (gen_dft, 13), (gen_fir, 11),
+            (gen_expo, 12)]
     total = sum(wt for _, wt in gens)
     for g, wt in gens:
         for _ in range(n * wt // total):
@@ -518,6 +622,10 @@ def impl(c):
                            dict((k, py_coeff(x, ct)) for k, x in c["at"]))
             oms = omegas(c)
             return observe(c["kind"], filt.freq_response(container(c["kind"], oms)), len(oms))
+        if e == "tree":
+            bank = build_tree(c["tree"])
+            oms = omegas(c)
+            return observe(c["kind"], bank.freq_response(container(c["kind"], oms)), len(oms))
         if e == "bank":
             members = [mk_filter(f) for f in c["bank"]]
             bank = (CascadeFilter if c["bkind"] == "cascade" else ParallelFilter)(*members)
@@ -558,6 +666,8 @@ def request(c):
     if e == "bank":
         return {"entry": "bank", "kind": c["bkind"], "ws": c["pts"],
                 "bank": [{"b": f["b"], "a": f["a"]} for f in c["bank"]]}
+    if e == "tree":
+        return {"entry": "tree", "tree": c["tree"], "ws": c["pts"]}
     if e == "dft":
         return {"entry": "dft", "blk": c["blk"], "ws": c["pts"], "normalize": c["normalize"]}
     if e == "fir":
@@ -621,6 +731,8 @@ def _ill_conditioned(c):
         return not well_conditioned([c], [gdec_pt(p) for p in c["pts"]])
     if e == "bank":
         return not well_conditioned(c["bank"], [gdec_pt(p) for p in c["pts"]], c["bkind"])
+    if e == "tree":
+        return not tree_ok(c["tree"], [gdec_pt(p) for p in c["pts"]])
     return False
 
 
@@ -651,7 +763,7 @@ def cmp_resp(c, io, exp, label, kind_tag, out, ctor):
 def compare(c, io, drv):
     out = []
     e = c["entry"]
-    if e in ("freq", "freqd", "bank"):
+    if e in ("freq", "freqd", "bank", "tree"):
         if ill_conditioned(c):
             return []
         cmp_resp(c, io, drv["model"], "model", "model", out, drv["ctor_model"])
@@ -711,7 +823,7 @@ def tally(eng, c, io):
     eng.count("entry", e)
     if "err" in io:
         eng.count("impl_error", e + ":" + io["err"])
-    if e in ("freq", "freqd", "bank"):
+    if e in ("freq", "freqd", "bank", "tree"):
         eng.count("container", c["kind"])
         eng.count("n_points", min(len(c["pts"]), 8))
         for p in c["pts"]:
@@ -753,6 +865,9 @@ def tally(eng, c, io):
                  (":general-sum" if any(k < lo for k in ks_b) else ":horner")
         eng.count("eval_branch", br)
         eng.count("dict_unsorted", ks_b != sorted(ks_b) or ks_a != sorted(ks_a))
+    elif e == "tree":
+        eng.count("tree_depth", tree_depth(c["tree"]))
+        eng.count("tree_root", "cascade" if "cascade" in c["tree"] else "parallel")
     elif e == "bank":
         eng.count("bank", "%s:%d" % (c["bkind"], len(c["bank"])))
     elif e == "dft":
@@ -780,17 +895,49 @@ def _shrink_list(xs):
             yield xs[:i] + [0] + xs[i + 1:]
 
 
+def _shrink_tree(node):
+    """smaller variants of a bank tree (a node replaced by a member, a member dropped, a leaf shrunk)"""
+    key = "cascade" if "cascade" in node else ("parallel" if "parallel" in node else None)
+    if key is None:
+        for b in _shrink_list(node["b"]):
+            yield dict(node, b=b)
+        if not node.get("raw"):
+            for a in _shrink_list(node["a"]):
+                if a:
+                    yield dict(node, a=a)
+        else:
+            yield dict((k, v) for k, v in node.items() if k != "raw")
+        return
+    ms = node[key]
+    for i, m in enumerate(ms):
+        yield m                                           # the member instead of the node
+        rest = ms[:i] + ms[i + 1:]
+        if not (node.get("form") == "star" and len(rest) == 1 and rest[0].get("raw")):
+            yield dict(node, **{key: rest})
+        for m2 in _shrink_tree(m):
+            new = ms[:i] + [m2] + ms[i + 1:]
+            if not (node.get("form") == "star" and len(new) == 1 and new[0].get("raw")):
+                yield dict(node, **{key: new})
+    if node.get("form") == "list":
+        if not (len(ms) == 1 and ms[0].get("raw")):
+            yield dict(node, form="star")
+
+
 def shrink(c):
     e = c["entry"]
-    if e in ("freq", "freqd", "bank", "dft", "fir"):
+    if e in ("freq", "freqd", "bank", "tree", "dft", "fir"):
         pts = c["pts"]
         for i in range(len(pts)):
             if c.get("kind") != "scalar" or len(pts) > 1:
                 yield dict(c, pts=pts[:i] + pts[i + 1:])
         if c.get("wrap"):
             yield dict(c, wrap=False)
-    if e in ("freq", "freqd", "bank") and c["kind"] not in ("list", "scalar"):
+    if e in ("freq", "freqd", "bank", "tree") and c["kind"] not in ("list", "scalar"):
         yield dict(c, kind="list")
+    if e == "tree":
+        for t in _shrink_tree(c["tree"]):
+            if "cascade" in t or "parallel" in t:
+                yield dict(c, tree=t)
     if e == "freqd":
         for key in ("bt", "at"):
             ts = c[key]
@@ -852,7 +999,7 @@ def neighbours(c):
                         yield dict(c, **{key: xs[:i] + [x + d] + xs[i + 1:]})
         for p in others:
             yield dict(c, pts=[p], kind="list")
-    elif e == "freqd":
+    elif e in ("freqd", "tree"):
         for p in others:
             yield dict(c, pts=[p], kind="list")
     elif e == "bank":
@@ -873,10 +1020,12 @@ def neighbours(c):
 def classify(c, io, drv):
     e = c["entry"]
     tag = e if e != "bank" else c["bkind"]
+    if e == "tree":
+        tag = "tree-" + ("cascade" if "cascade" in c["tree"] else "parallel")
     if "err" in io:
         return "%s:raises-%s" % (tag, io["err"])
     exp = drv.get("spec")
-    if e in ("freq", "freqd", "bank"):
+    if e in ("freq", "freqd", "bank", "tree"):
         if drv.get("ctor_spec") or first_err(exp):
             return "%s:expected-%s" % (tag, "ValueError" if drv.get("ctor_spec") else first_err(exp))
         if io.get("kind") != RESULT_KIND[c["kind"]]:
